@@ -22,6 +22,7 @@ type mapLoop struct {
 	MapType string
 	Key     string // stable key: FnName + "/range " + MapType + "#n"
 	Effects []loopEffect
+	depth   int // inlining depth of helper bodies
 }
 
 type loopEffect struct {
@@ -151,6 +152,7 @@ func classifyLoop(p *Prog, l *mapLoop, absorbing func(fn *types.Func) bool) {
 	}
 	var loopBreakTargets = map[ast.Stmt]bool{l.Range: true}
 	inlined := map[*ast.FuncLit]bool{}
+	inlinedDecl := map[*ast.FuncDecl]bool{}
 	ast.Inspect(body, func(n ast.Node) bool {
 		switch x := n.(type) {
 		case *ast.AssignStmt:
@@ -376,6 +378,23 @@ func classifyLoop(p *Prog, l *mapLoop, absorbing func(fn *types.Func) bool) {
 					}
 					return true
 				} else if lit != nil {
+					return true
+				}
+			}
+			// a helper of the same package (an extracted loop body): its effects are classified in place, like a closure's
+			if callee != nil && callee.Pkg() == l.Pkg.Types && !callee.Exported() && l.depth < 2 {
+				if hf := p.DeclOf(callee); hf != nil && hf.Decl.Body != nil && inlinedDecl[hf.Decl] {
+					return true // classified at its first call
+				} else if hf != nil && hf.Decl.Body != nil {
+					inlinedDecl[hf.Decl] = true
+					sub := &mapLoop{Pkg: l.Pkg, Fn: hf.Decl, FnName: l.FnName, depth: l.depth + 1, Range: &ast.RangeStmt{For: hf.Decl.Body.Pos(), Key: l.Range.Key, X: l.Range.X, Body: hf.Decl.Body}}
+					classifyLoop(p, sub, absorbing)
+					for _, e := range sub.Effects {
+						if e.Kind == "return-const" || e.Kind == "return-error" || e.Kind == "return-value" {
+							continue // returns of the helper are not returns of the loop's function
+						}
+						l.Effects = append(l.Effects, e)
+					}
 					return true
 				}
 			}
